@@ -30,11 +30,13 @@ pub fn generate(scope: &str, name: &str, seed: u64, k: u64, rng: &mut Rng, tier:
         "pipe" => {
             let pick = match std::env::var("RSV_PIPE_PROFILE") {
                 Ok(v) => v.parse::<u64>().unwrap_or(0), // experiments only (mutrate.sh)
-                Err(_) => rng.below(18),
+                Err(_) => rng.below(20),
             };
             let many_cycles = (15..=17).contains(&pick);
+            let scarce_depots = (18..=19).contains(&pick);
             let p = match pick {
                 0..=1 => Profile::small(),
+                18..=19 => Profile::cycle_heavy(),
                 2..=3 => Profile::maint_heavy(),
                 4 => Profile::fleet_heavy(),
                 5..=7 => Profile::cycle_heavy(),
@@ -68,6 +70,18 @@ pub fn generate(scope: &str, name: &str, seed: u64, k: u64, rng: &mut Rng, tier:
                     m.loc = rng.below(inst.nlocs as u64) as usize;
                     inst.maint.push(m);
                 }
+            }
+            if scarce_depots {
+                // two or three real depots at different locations with room for one or two vehicles each:
+                // most of the fleet starts at the overflow depot, also in the returned schedule
+                let nd = rng.range(2, 3).min(inst.nlocs as u64) as usize;
+                let mut locs: Vec<usize> = (0..inst.nlocs).collect();
+                rng.shuffle(&mut locs);
+                inst.depots = Some(
+                    (0..nd)
+                        .map(|i| crate::inst::InDepot { loc: locs[i], capacity: rng.range(1, 2), allowed: vec![(0, None)] })
+                        .collect(),
+                );
             }
             head + &pipe::run(&inst, &workdir(), name, tier)
         }
